@@ -48,12 +48,15 @@ def flatten_request(state):
     if isinstance(rb, dict) and 'hex' in rb:
         v['rbuf'] = binascii.a2b_hex(rb['hex'])
     v['bgp_id'] = state.get('bgp_id', 0x0a000001)
+    if 'caps' in conf:
+        from .replay import unj
+        v['caps'] = unj(conf['caps'])
     return v
 
 
 class Session(object):
     def __init__(self, it, with_protocol=True, transport_connected=None, concrete_caps=None, sfx='', peer_id_fork=False,
-                 values=None):
+                 values=None, bgp_id_none=False):
         prog = it.prog
         M = prog.models
         p = it.p
@@ -107,12 +110,16 @@ class Session(object):
                                            'idle_hold_time': self.ih_t})
         self.local_as = I('local_as', 1, 2 ** 32 - 1)
         self.remote_as = I('remote_as', 1, 2 ** 32 - 1)
+        if V is not None and 'caps' in V:
+            concrete_caps = V['caps']
         caps = concrete_caps if concrete_caps is not None else {
             'local': {'afi_safi': [(1, 1)], 'four_bytes_as': True, 'route_refresh': True, 'cisco_route_refresh': True,
                       'enhanced_route_refresh': True, 'graceful_restart': False, 'cisco_multi_session': True,
                       'add_path': None},
             'remote': {}}
         self.caps = caps
+        import copy as _copy
+        self.caps0 = _copy.deepcopy(caps)
         running = {'remote_as': self.remote_as, 'remote_addr': '10.0.0.2', 'local_as': self.local_as,
                    'local_addr': '10.0.0.1', 'md5': None, 'afi_safi': ['ipv4'], 'capability': caps}
         self.rib = Bv('conf_rib')
@@ -134,7 +141,7 @@ class Session(object):
         else:
             self.peer_id0 = None if (peer_id_fork and p.branch(z3.Bool('peering_peer_id_none' + sfx))) else STR.ip4(I('peering_peer_id', 0, 2 ** 32 - 1))
         peering.f.update({'my_asn': self.local_as, 'my_addr': '10.0.0.1', 'peer_addr': '10.0.0.2',
-                          'peer_id': self.peer_id0, 'bgp_id': I('bgp_id', 0, 2 ** 32 - 1), 'peer_asn': self.remote_as,
+                          'peer_id': self.peer_id0, 'bgp_id': (None if bgp_id_none else I('bgp_id', 0, 2 ** 32 - 1)), 'peer_asn': self.remote_as,
                           'afi_safi': ['ipv4'], 'md5': None, 'status': Bv('peering_status'),
                           'handler': self.handler, 'estab_protocol': None})
         # ghost state (C12): outstanding connectTCP attempts
